@@ -23,8 +23,8 @@ MANIFEST = {
                   'iterators across mutations, cache on and off.  Exploration: held on the histories observed.',
     'level_note': 'Trusts Python sets/sorting as the model and the member rules\' own listing.',
 }
-PLAN = {'quick': {'shards': 4, 'timeout': 400, 'budget': 45},
-        'thorough': {'shards': 16, 'timeout': 1800, 'budget': 420}}
+PLAN = {'quick': {'shards': 4, 'timeout': 1800, 'budget': 900},
+        'thorough': {'shards': 16, 'timeout': 7200, 'budget': 2400}}
 N_CASES = {'quick': 700, 'thorough': 9000}
 MUTATORS = ('rrule', 'rdate', 'exrule', 'exdate')
 
